@@ -20,7 +20,7 @@ use serde_json::{json, Value};
 type Emit<'a> = &'a mut dyn FnMut(String, Vec<u8>);
 
 fn sections(tier: Tier, seed: u64) -> Vec<(&'static str, Box<dyn Fn(Emit)>)> {
-    let gh_max = tier.pick(200usize, 600);
+    let gh_max = tier.pick(700usize, 1300);
     let max = tier.pick(600usize, 1100);
     let mut v: Vec<(&'static str, Box<dyn Fn(Emit)>)> = vec![];
     v.push(("blake2b-grid", Box::new(move |e| {
